@@ -5,11 +5,11 @@ From Flocq Require Import Core.Raux.
 From Inferno Require Import Base.Num Base.NumR C19.Encoders C19.EncodersLists C19.EncodersPoisson C19.EncodersProofs.
 Import ListNotations.
 Open Scope R_scope.
-Theorem exp_online_yields_steps : forall (guard : nat -> bool) (steps : nat) (dt : T RN) (refrac : option (T RN))
-    (comp : bool) (inps draws0 : list (T RN)) (draws : list (list (T RN)))
-    (outs : list (list bool)),
-  exp_online_gen RN guard steps dt refrac comp inps draws0 draws = (outs, false) ->
+Theorem exp_online_yields_steps : forall (steps : nat) (dt : T RN) (refrac : option (T RN)) (comp : bool)
+    (inps draws0 : list (T RN)) (draws : list (list (T RN))),
   length draws0 = length inps ->
-  length outs = steps /\ Forall (fun row : list bool => length row = length inps) outs.
+  length (exp_online RN steps dt refrac comp inps draws0 draws) = steps /\
+  Forall (fun row : list bool => length row = length inps)
+    (exp_online RN steps dt refrac comp inps draws0 draws).
 Proof. exact (@Inferno.C19.EncodersProofs.exp_online_yields_steps). Qed.
 Print Assumptions exp_online_yields_steps.
